@@ -655,3 +655,70 @@ def edge_holds(f, cond, k, lhs, op, rhs):
     if l == rhs and rr == lhs and op in implied[_SWAP[o]]:
         return True
     return False
+
+
+# ---- canonical text of small arithmetic expressions ---------------------------------------------
+def expr_text(f, e, depth=0):
+    """parenthesised text of an arithmetic/index expression with casts removed: '((c+r)%4)', 'state[r][((c+r)%4)]', 'FFmul(2,t[r])'"""
+    if e is None or depth > 12:
+        return '?'
+    st = f.s(f.strip_casts(e))
+    if st is None:
+        return '?'
+    k = st['k']
+    if st.get('cv') is not None and k != 'DeclRefExpr':
+        return str(st['cv'])
+    if k == 'DeclRefExpr':
+        return st.get('n', '?')
+    if k in ('ParenExpr',):
+        return expr_text(f, st['ch'][0], depth + 1)
+    if k == 'BinaryOperator' or k == 'CompoundAssignOperator':
+        return '(%s%s%s)' % (expr_text(f, st['ch'][0], depth + 1), st.get('op'), expr_text(f, st['ch'][1], depth + 1))
+    if k == 'UnaryOperator':
+        return '%s%s' % (st.get('op'), expr_text(f, st['ch'][0], depth + 1))
+    if k == 'ArraySubscriptExpr':
+        return '%s[%s]' % (expr_text(f, st['ch'][0], depth + 1), expr_text(f, st['ch'][1], depth + 1))
+    if k == 'MemberExpr':
+        return f.path(st['i'])
+    if k in CALL_KINDS:
+        return '%s(%s)' % (st.get('fn') or st.get('callee', '?'), ','.join(expr_text(f, a, depth + 1) for a in st.get('args', ())))
+    return '?'
+
+
+def eval_int(f, e, env, depth=0):
+    """value of a pure integer expression under env {variable name: int}; None if it contains anything else.
+    (a static evaluator for index expressions over small finite domains; nothing of the repository is executed)"""
+    if e is None or depth > 16:
+        return None
+    st = f.s(f.strip_casts(e))
+    if st is None:
+        return None
+    k = st['k']
+    if st.get('cv') is not None and k != 'DeclRefExpr':
+        return st['cv']
+    if k == 'DeclRefExpr':
+        return env.get(st.get('n'))
+    if k == 'ParenExpr':
+        return eval_int(f, st['ch'][0], env, depth + 1)
+    if k == 'UnaryOperator' and st.get('op') == '-':
+        v = eval_int(f, st['ch'][0], env, depth + 1)
+        return None if v is None else -v
+    if k == 'BinaryOperator':
+        a, b = eval_int(f, st['ch'][0], env, depth + 1), eval_int(f, st['ch'][1], env, depth + 1)
+        if a is None or b is None:
+            return None
+        op = st.get('op')
+        try:
+            if op == '+': return a + b
+            if op == '-': return a - b
+            if op == '*': return a * b
+            if op == '/': return int(a / b) if b else None
+            if op == '%': return (abs(a) % abs(b)) * (1 if a >= 0 else -1) if b else None
+            if op == '<<': return a << b
+            if op == '>>': return a >> b
+            if op == '&': return a & b
+            if op == '|': return a | b
+            if op == '^': return a ^ b
+        except Exception:
+            return None
+    return None
